@@ -60,6 +60,17 @@ Definition krs_ok (ps : list profile) (i : term) (q : profile) (o : term) : bool
   forallb (fun e => existsb (fun e' => mkey_eqb (fst e) (fst e') && String.eqb (snd e) (snd e')) tin)
           (krs_table q (gn o 5)).
 
+(* "nothing is altered" for the mapping fields that are not part of the identity (start, limit,
+   file next to a build id, flags): every result mapping is, field for field, one of the input
+   mappings of the same binary *)
+Definition mapping_same_fields (a b : mapping) : bool :=
+  (m_start a =? m_start b) && (m_limit a =? m_limit b) && (m_offset a =? m_offset b) &&
+  String.eqb (m_file a) (m_file b) && String.eqb (m_buildid a) (m_buildid b) &&
+  Bool.eqb (m_hasfn a) (m_hasfn b) && Bool.eqb (m_hasfile a) (m_hasfile b) &&
+  Bool.eqb (m_hasline a) (m_hasline b) && Bool.eqb (m_hasinline a) (m_hasinline b).
+Definition mappings_from_inputs (ps : list profile) (q : profile) : bool :=
+  forallb (fun m => existsb (fun p => existsb (mapping_same_fields m) (p_mapping p)) ps) (p_mapping q).
+
 (* fields documented as symmetric agree between Merge(ps) and Merge(rev ps) *)
 Definition subset_s (a b : list string) : bool := forallb (fun x => existsb (String.eqb x) b) a.
 Definition reversed_ok (ps : list profile) (q : profile) (o : term) : bool :=
@@ -86,7 +97,7 @@ Definition spec_C03 (i o : term) : bool :=
     match gl (gn o 2) with [] => true | _ => false end &&      (* nothing reachable from the inputs *)
     negb (gb (gn o 3)) &&                                       (* inputs not modified *)
     gb (gn o 4) &&                                              (* compacting again changes nothing *)
-    krs_ok ps i q o && reversed_ok ps q o
+    krs_ok ps i q o && mappings_from_inputs ps q && reversed_ok ps q o
   else false.                                                   (* compatible inputs must merge *)
 
 (* class 25 = F25: some input has a negative period (the documented "maximum" is then not what
